@@ -18,9 +18,9 @@ PROPS = {
     "C13": [r13.rule_births, r13.rule_T4, r13.rule_release_nonnull, r13.rule_collect, r13.rule_compaction, r13.rule_R13_dedupe, r13.rule_R13_marks, r11.rule_R11_switch, r11.rule_R11_sweep, r5.rule_parse_entry, r12.rule_R1c, r7.rule_T1],
     "C14": [r4.rule_R4e, r3.rule_R3e, r1.rule_R1a, r1.rule_R1b, r12.rule_R1c, r12.rule_R12, r2e.rule_R2e, r5.rule_undefined_typestate],
     "C15": [r5.rule_defaults, r5.rule_setters, r5.rule_parse_entry, r5.rule_token_intake, r5.rule_undefined_typestate, r3.rule_R3d, r1.rule_R1a, r4.rule_R4c, r4.rule_R4d],
-    "C16": [r8.rule_R8, r8.rule_R8_probes, r8.rule_forwarding, r8.rule_R2f, r17.rule_R17, r17.rule_R17_cxx, r19.rule_R19, r19.rule_R19_cxx, r18.rule_R18, r18.rule_R18_cxx],
-    "C19": [r8.rule_R8, r8.rule_R8_probes, r8.rule_R2f, r4.rule_R4d, r19.rule_R19, r19.rule_R19_cxx, r18.rule_R18, r18.rule_R18_cxx],
-    "C17": [r3.rule_R3a, r3.rule_R3b, r3.rule_R3c, r3.rule_R3d, r3.rule_R3e, r3.rule_allocator_discipline, r1.rule_R1a, r1.rule_R1b, r17.rule_R17, r17.rule_R17_cxx],
+    "C16": [r8.rule_R8, r8.rule_R8_probes, r8.rule_forwarding, r8.rule_R2f, r17.rule_R17, r17.rule_R17_cxx, r19.rule_R19, r19.rule_R19_cxx, r18.rule_R18, r18.rule_R18_cxx, r19.rule_R23, r19.rule_R23_cxx],
+    "C19": [r8.rule_R8, r8.rule_R8_probes, r8.rule_R2f, r4.rule_R4d, r19.rule_R19, r19.rule_R19_cxx, r18.rule_R18, r18.rule_R18_cxx, r19.rule_R23, r19.rule_R23_cxx],
+    "C17": [r3.rule_R3a, r3.rule_R3b, r3.rule_R3c, r3.rule_R3d, r3.rule_R3e, r3.rule_allocator_discipline, r1.rule_R1a, r1.rule_R1b, r12.rule_R1c, r17.rule_R17, r17.rule_R17_cxx, r19.rule_R23, r19.rule_R23_cxx],
 }
 
 
